@@ -58,14 +58,42 @@ Par == IF IsTuple
              g |-> GSeq[Digit(ParIx, 81, 4) + 1], w |-> ESeq[Digit(ParIx, 324, 9) + 1]]
        ELSE [a |-> PInf, b |-> PInf, g |-> Q(Zero), w |-> Q(Zero)]
 
+\* ------------------------------------------------------------------ the dynamic-range family
+\* The accumulators are products of discount factors: after T iterations the average strategy of an
+\* infoset that was reached only in iteration 1 carries the weight (T+1)^-g, a positive regret
+\* discounted with exponent a < 0 the factor prod t^a/(t^a+1).  In exact arithmetic these never
+\* vanish; in double precision they pass through the subnormal range and reach zero.  FAMILY =
+\* "range" enumerates exponents x budgets whose products sweep 1e-15 .. 1e-3000 on games with an
+\* infoset that is reached in the first iteration only.
+Family == IOEnv.FAMILY
+RG == <<Q(R(50)), Q(R(100)), Q(R(200)), Q(R(300)), Q(R(400)), Q(R(500)), Q(R(700)), Q(R(1000))>>
+RT == <<1, 2, 3, 5, 10, 40, 150, 1500>>
+RAB == <<<<PInf, PInf>>, <<Q(<<3, 2>>), Q(Zero)>>, <<PInf, NInf>>, <<Q(R(-650)), Q(R(-650))>>,
+         <<Q(R(-1000)), PInf>>, <<Q(R(-325)), Q(R(-100))>>>>
+RW == <<PInf, Q(Zero), Q(R(-1)), NInf>>
+RGames == <<11, 3, 4, 12>>          \* forgotten, rare, dominated, forgotten2 (harness list)
+RTotal == 8 * 8 * 6 * 4 * 3 * 2 * 4
+RPoint == [game |-> RGames[Digit(idx, 8 * 8 * 6 * 4 * 3 * 2, 4) + 1],
+           method |-> MethodSeq[Digit(idx, 8 * 8 * 6 * 4, 3) + 1],
+           preset |-> "tuple",
+           par |-> [a |-> RAB[Digit(idx, 64, 6) + 1][1], b |-> RAB[Digit(idx, 64, 6) + 1][2],
+                    g |-> RG[Digit(idx, 1, 8) + 1], w |-> RW[Digit(idx, 384, 4) + 1]],
+           budget |-> RT[Digit(idx, 8, 8) + 1], thr |-> "zero",
+           threads |-> <<"1", "2">>[Digit(idx, 8 * 8 * 6 * 4 * 3, 2) + 1],
+           verdict |-> {"ok"} \cup (IF Digit(idx, 8 * 8 * 6 * 4 * 3, 2) = 1 THEN {"ThreadSpawnError"} ELSE {}),
+           infinite |-> FALSE]
+
+TotalOf == IF Family = "range" THEN RTotal ELSE Total
+
 \* a deterministic slice: every Of-th point starting at Slice
-Init == /\ idx \in {Slice + k * Of : k \in 0..((Total - 1 - Slice) \div Of)}
+Init == /\ idx \in {Slice + k * Of : k \in 0..((TotalOf - 1 - Slice) \div Of)}
         /\ done = FALSE
 
 Next == /\ ~done
         /\ done' = TRUE
         /\ UNCHANGED idx
-        /\ PrintT(<<"OUT", idx, ToJson([game |-> Game, method |-> Method, preset |-> Preset, par |-> Par,
+        /\ IF Family = "range" THEN PrintT(<<"OUT", idx, ToJson(RPoint)>>)
+           ELSE PrintT(<<"OUT", idx, ToJson([game |-> Game, method |-> Method, preset |-> Preset, par |-> Par,
                                         budget |-> Budget, thr |-> Thr, threads |-> Th,
                                         verdict |-> Verdict(Th), infinite |-> Budget = 0])>>)
 Spec == Init /\ [][Next]_vars
